@@ -442,9 +442,10 @@ char *vh_key_jwk(const vh_key_t *k, int priv, const char *alg, const char *kid, 
 	sb_add(&b, "}");
 	return b.p;
 }
+const char *vh_load_kid;	/* kid given to keys loaded through vh_key_load (NULL: none) */
 const jwk_item_t *vh_key_load(const vh_key_t *k, int priv, const char *alg, jwk_set_t **set)
 {
-	char *txt = vh_key_jwk(k, priv, alg, NULL, NULL);
+	char *txt = vh_key_jwk(k, priv, alg, vh_load_kid, NULL);
 	size_t before = *set ? jwks_item_count(*set) : 0;
 	jwk_set_t *s = jwks_load(*set, txt);
 	const jwk_item_t *it;
